@@ -7,6 +7,7 @@ import (
 	"net/http"
 	"strconv"
 	"strings"
+	"sync/atomic"
 	"time"
 
 	"github.com/fiorix/go-diameter/diam/datatype"
@@ -184,7 +185,9 @@ func (p *Processor) ChargingDataCreate(
 
 	consumerId := chargingData.NfConsumerIdentification.NFName
 	if !chargingData.OneTimeEvent {
-		chargingSessionId = ueId + consumerId + strconv.Itoa(int(self.LocalRecordSequenceNumber))
+		// unique: every reference gets its own sequence number, delimited from the names before it
+		sessionSeq := atomic.AddUint64(&self.ChargingSessionSequence, 1) - 1
+		chargingSessionId = ueId + consumerId + "-" + strconv.FormatUint(sessionSeq, 10)
 	}
 	cdr, err := p.OpenCDR(chargingData, ue, chargingSessionId, false)
 	if err != nil {
